@@ -7,6 +7,8 @@ of the library binds here.  Exactly one logical thread runs at any instant.
 """
 import sys
 import types
+import signal
+import ctypes
 import heapq
 import itertools
 import traceback
@@ -31,6 +33,37 @@ class Killed(BaseException):
 
 class HarnessError(Exception):
     """the controlled world was left (un-virtualised blocking call, divergence, ...)"""
+
+
+class Runaway(BaseException):
+    """raised on the scheduler thread when a single call into the library (a frame handler, a public call made by the
+    scenario) has used WATCHDOG_CPU seconds of processor time without returning and without reading the virtual clock"""
+
+
+WATCHDOG_CPU = 4.0    # processor seconds; the longest legitimate single step (one handler call / one thread slice) takes milliseconds
+
+
+def _on_vtalrm(signum, frame):
+    w = CUR
+    if w is not None and w.cur is not None and getattr(w.cur, 'os', None) is not None and not w.cur.done:
+        # a controlled thread loops without ever reading the clock: end it the way the clock-read guard would
+        w.cur.spun = True
+        ctypes.pythonapi.PyThreadState_SetAsyncExc(ctypes.c_ulong(w.cur.os.ident), ctypes.py_object(BusySpin))
+        signal.setitimer(signal.ITIMER_VIRTUAL, WATCHDOG_CPU)
+        return
+    raise Runaway("a call into the library does not return (%g s of processor time in one step)" % WATCHDOG_CPU)
+
+
+def _arm():
+    signal.setitimer(signal.ITIMER_VIRTUAL, WATCHDOG_CPU)
+
+
+def _disarm():
+    signal.setitimer(signal.ITIMER_VIRTUAL, 0)
+
+
+if _th.current_thread() is _th.main_thread():
+    signal.signal(signal.SIGVTALRM, _on_vtalrm)
 
 
 # --------------------------------------------------------------------------- proxies
@@ -423,8 +456,15 @@ class World:
     def run(self, until):
         global CUR
         CUR = self
-        while self.step(until):
-            pass
+        n = 0
+        _arm()
+        try:
+            while self.step(until):
+                n += 1
+                if not n & 255:
+                    _arm()              # a fresh budget: the watchdog is about one step, not about the whole run
+        finally:
+            _disarm()
         if until > self.now:
             self.now = until
 
@@ -436,11 +476,19 @@ class World:
         global CUR
         CUR = self
         limit = self.now + max_dt
-        while not pred():
-            if not self.step(limit):
-                if limit > self.now:
-                    self.now = limit
-                break
+        n = 0
+        _arm()
+        try:
+            while not pred():
+                if not self.step(limit):
+                    if limit > self.now:
+                        self.now = limit
+                    break
+                n += 1
+                if not n & 255:
+                    _arm()
+        finally:
+            _disarm()
         return bool(pred())
 
     def next_event_time(self):
